@@ -13,3 +13,18 @@ PROPS['C10'] = dict(
     assumptions=[A_TOOLS, A_ARITH],
     not_covered=['the plateau over thousands of transactions is a corollary, not measured'],
 )
+
+PROPS['C10'].update(
+    level_text='Every function of the free-list layer that the property depends on carries a machine-checked contract on its real body, for all inputs, no bound.',
+    level_note='Assumes the B-tree layer frees only pages of its own snapshot (A1); std collections per vstd specs; prelude shims listed in evidence.trusted_base.',
+)
+
+PENDING = 'not claimed yet in this build session: deciding units are not built (see DESIGN section 10)'
+NOT_APPLICABLE = {
+    'C04': 'quantifies over thread schedules; Kani has no threads, Verus would need the code rewritten onto its permission types (a model) — DESIGN section 6',
+    'C09': 'mutual exclusion/progress/deadlock-freedom are schedule and liveness properties of std::sync primitives; no contract within reach states them — DESIGN section 6',
+    'C13': 'quantifies over schedules of OS processes and flock semantics; a sequential contract cannot decide mutual exclusion — DESIGN section 6',
+    'C14': 'quantifies over client programs and is decided by rustc borrow/Send checking of each program, not by contracts on jammdb bodies — DESIGN section 6',
+}
+for _p in ['C01', 'C02', 'C03', 'C05', 'C06', 'C07', 'C08', 'C11', 'C12', 'C15', 'C16']:
+    NOT_APPLICABLE.setdefault(_p, PENDING)
